@@ -288,8 +288,9 @@ func runC06(c *Ctx) {
 	r.Rule("J3", "only the printer encodes, after the alias test / explode", 2)
 	r.Rule("J4", "no Go map on the conversion paths", 3)
 	r.Rule("J5", "an unrepresentable scalar is an error", 1)
-	r.Rule("J7", "aliases resolve to the most recent anchor of that name", 1)
+	r.Rule("J7", "aliases resolve to the most recent anchor of that name; merged values are exploded on every path", 2)
 	ruleA4(c, "J7")
+	ruleA5(c, "J7")
 	ruleJ124(c)
 	ruleJ6(c)
 	if fn := c.libFunc("parseInt64"); fn != nil {
@@ -609,6 +610,8 @@ func runC14(c *Ctx) {
 	r.Rule("K4", "codecs drop no error and flush their writers", 100)
 	ruleLuaEscapes(c, "K1")
 	ruleFormats(c, "K2", "K3")
+	r.Rule("K5", "a reused decoder starts clean (inverse pairs are applied element by element with one decoder)", 8)
+	ruleS4(c, "K5")
 	// K4: E1 (error discipline) + E2 (flush) restricted to codec files
 	before := len(r.obligs)
 	ruleE1(c, "K4")
